@@ -484,3 +484,26 @@ package storage
 //@   loop 3 invariant {idx} len(removedHashes) == old(repo.height) - height && forall(i, old(repo.height) - _i + 1, old(repo.height) + 1, !has(repo.heights, BlockHashOf(old(Hdr(repo, i)))))
 //@   loop 3 invariant {idx} forall(k, 0, len(removedHashes), removedHashes[k] == BlockHashOf(old(Hdr(repo, old(repo.height) - k))))
 //@   loop 3 invariant forall(x bitcoin.Hash32, old(has(repo.heights, x)) && forall(k, 0, len(removedHashes), removedHashes[k] != x) ==> has(repo.heights, x))
+
+// ---------------------------------------------------------------------------------------
+// The per-block transaction files and the reorg records live under other key prefixes than the
+// block files ("spynode/txs/…", "spynode/reorgs/…" vs "spynode/blocks/…"): these operations leave
+// every block file as it is. Trusted (not verified): the key formats are not compared by the model.
+//@ spec blockFilesSame() = forall(f int, sthas(bkey(f)) == old(sthas(bkey(f))) && stblob(bkey(f)) == old(stblob(bkey(f))))
+
+//@ func (*TxRepository).GetBlock
+//@   trusted
+//@   opt frame = freshonly
+//@   ensures other_prefix: blockFilesSame()
+//@ func (*TxRepository).RemoveBlock
+//@   trusted
+//@   opt frame = freshonly
+//@   ensures other_prefix: blockFilesSame()
+//@ func (*TxRepository).ReleaseBlock
+//@   trusted
+//@   opt frame = freshonly
+//@   ensures other_prefix: blockFilesSame()
+//@ func (*ReorgRepository).Save
+//@   trusted
+//@   opt frame = freshonly
+//@   ensures other_prefix: blockFilesSame()
